@@ -254,7 +254,7 @@ def chain_theorem(fn, nblocks, pres, arrs, inval, final_pair):
 def gen_reduce_full():
     head = gen_reduce()
     head = head.replace("\nend PatVerif.Proofs.ScReduce\n", "\n")
-    parts = [head, RF, final_lemma("scReduce", 19, 20, "R18"), gen_reduce_io(), store_lemma("scReduce", "out"),
+    parts = [head, final_lemma("scReduce", 19, 20, "R18"), gen_reduce_io(), store_lemma("scReduce", "out"),
              chain_theorem("scReduce", 20, None, ["s"], "leFn s 64", (19, 20)), "end PatVerif.Proofs.ScReduce\n"]
     return "\n".join(parts)
 
@@ -262,3 +262,163 @@ def gen_reduce_full():
 if __name__ == "__main__" and len(sys.argv) > 2 and sys.argv[2] == "full":
     if sys.argv[1] == "scReduce":
         open("/verif/lean/PatVerif/Proofs/ScReduce.lean", "w").write(gen_reduce_full())
+
+
+def limb_exprs(x):
+    """the twelve limb expressions of a 32-byte array x, as the translator prints them (from the a-lines of scMulAdd)"""
+    blks = blocks("scMulAdd")
+    out = []
+    for st in blks[0]:
+        m = re.fullmatch(r"a(\d+) := (.*)", st)
+        if not m:
+            continue
+        e = m[2]
+        mm = re.fullmatch(r"2097151 & load3\(a\[(\d*):\]\)", e)
+        if mm:
+            out.append(f"(Go.iand 21 (load3 {x} {int(mm[1] or 0)}))")
+            continue
+        mm = re.fullmatch(r"2097151 & \(load([34])\(a\[(\d+):\]\) >> (\d+)\)", e)
+        if mm:
+            out.append(f"(Go.iand 21 (Go.ishr (load{mm[1]} {x} {mm[2]}) {mm[3]}))")
+            continue
+        mm = re.fullmatch(r"\(load([34])\(a\[(\d+):\]\) >> (\d+)\)", e)
+        if mm:
+            out.append(f"(Go.ishr (load{mm[1]} {x} {mm[2]}) {mm[3]})")
+            continue
+        raise SystemExit("limb expr: " + st)
+    assert len(out) == 12
+    return out
+
+
+def limb_loads():
+    blks = blocks("scMulAdd")
+    res = []
+    for st in blks[0]:
+        if not st.startswith("a"):
+            continue
+        m = re.search(r"load([34])\(a\[(\d*):\]\)", st)
+        res.append((int(m[1]), int(m[2] or 0)))
+    return res
+
+
+LIMB_HI = [M21] * 11 + [(1 << 25) - 1]
+
+
+def limbs12_lemma():
+    E = limb_exprs("x")
+    loads = limb_loads()
+    bounds = " ∧ ".join(f"(0 ≤ {E[i]} ∧ {E[i]} ≤ {LIMB_HI[i]})" for i in range(12))
+    total = " + ".join(f"{E[i]} * 2^{21*i}" for i in range(12))
+    safes = " ∧ ".join(f"load{n}_safe x {o}" for n, o in loads)
+    out = [f"theorem limbs12_spec (x : Nat → Int) (hx : ∀ i, 0 ≤ x i ∧ x i ≤ 255) :\n    ({bounds}) ∧\n    ({total} = leFn x 32) ∧\n    ({safes}) := by"]
+    names = []
+    for n, o in loads:
+        nm = f"e{n}_{o}"
+        args = " ".join(f"(hx ({o} + {i}))" for i in range(n))
+        out.append(f"  have {nm} := load{n}_eq x {o} {args}")
+        names.append(nm)
+    for n in names:
+        out.append(f"  have {n}s := {n}.2")
+    out.append("  simp only [leFn]")
+    out.append("  simp only [" + ", ".join(n + ".1" for n in names) + "]")
+    out.append("  clear " + " ".join(names))
+    out.append("  simp only [" + ", ".join(n + "s" for n in names) + ", and_self, and_true]")
+    out.append("  simp only [Go.iand, Go.ishr, Nat.reduceAdd, Nat.reduceMul]")
+    for i in range(32):
+        out.append(f"  have b{i} := hx {i}")
+    out.append("  and_intros <;> first | trivial | omega\n")
+    return "\n".join(out)
+
+
+def products():
+    """s_k = [c_k] + sum a_i*b_j, parsed from the product block"""
+    blks = blocks("scMulAdd")
+    res = {}
+    for st in blks[1]:
+        m = re.fullmatch(r"s(\d+) := (.*)", st)
+        k, e = int(m[1]), m[2]
+        if e == "int64(0)":
+            res[k] = (False, [])
+            continue
+        terms = [t.strip() for t in e.split("+")]
+        hasc = terms[0].startswith("c")
+        if hasc:
+            assert terms[0] == f"c{k}"
+            terms = terms[1:]
+        prs = []
+        for t in terms:
+            mm = re.fullmatch(r"a(\d+) ?\* ?b(\d+)", t)
+            prs.append((int(mm[1]), int(mm[2])))
+        res[k] = (hasc, prs)
+    return res
+
+
+HDR = ("/-! Written by lean/tools/scproof.py (interval analysis of scalar.go); every bound is checked here by `omega`. -/\n"
+       "namespace PatVerif.Proofs.ScMulAdd\nopen PatVerif PatVerif.Generated.ScLimbs PatVerif.Proofs.ScHelp\nset_option maxRecDepth 16384\nset_option maxHeartbeats 4000000\n")
+END = "end PatVerif.Proofs.ScMulAdd\n"
+
+
+def gen_muladd():
+    """returns {module name: text}: bounds, block lemmas in two halves, head, and store + chain"""
+    blks = blocks("scMulAdd")
+    mid = blks[2:-1]
+    prods = products()
+    init = {}
+    for k in range(24):
+        hasc, prs = prods[k]
+        hi = (LIMB_HI[k] if hasc else 0) + sum(LIMB_HI[i] * LIMB_HI[j] for i, j in prs)
+        init[k] = (0, hi)
+    bs = analyse(mid, init)
+    n = len(mid)
+    mods = {}
+    bnd = ["import PatVerif.Proofs.ScHelp\n" + HDR, bnd_def("M0", init)]
+    for k in range(1, n - 1):
+        bnd.append(bnd_def(f"M{k}", bs[k - 1]))
+    mods["ScMulAddBnd"] = "\n".join(bnd) + "\n" + END
+    split = 3  # the two long carry rounds (and the first fold) on one side, the rest on the other
+    a = ["import PatVerif.Proofs.ScMulAddBnd\n" + HDR]
+    for k in range(1, split):
+        a.append(spec("scMulAdd", k, f"M{k-1}", f"M{k}"))
+    mods["ScMulAddA"] = "\n".join(a) + "\n" + END
+    b = ["import PatVerif.Proofs.ScMulAddBnd\n" + HDR]
+    for k in range(split, n - 1):
+        b.append(spec("scMulAdd", k, f"M{k-1}", f"M{k}"))
+    b.append(final_lemma("scMulAdd", n - 1, n, f"M{n-2}"))
+    mods["ScMulAddB"] = "\n".join(b) + "\n" + END
+    # head
+    c = ["import PatVerif.Proofs.ScMulAddBnd\n" + HDR, limbs12_lemma()]
+    Ea, Eb, Ec = limb_exprs("a"), limb_exprs("b"), limb_exprs("c")
+    h = ["theorem mul_bnd (x y hx hy : Int) (x0 : 0 ≤ x) (x1 : x ≤ hx) (y0 : 0 ≤ y) (y1 : y ≤ hy) : 0 ≤ x * y ∧ x * y ≤ hx * hy :=\n"
+         "  ⟨Int.mul_nonneg x0 y0, Int.mul_le_mul x1 y1 y0 (Int.le_trans x0 x1)⟩\n",
+         "theorem scMulAdd_load_spec (a b c : Nat → Int) (ha : ∀ i, 0 ≤ a i ∧ a i ≤ 255) (hb : ∀ i, 0 ≤ b i ∧ b i ≤ 255) (hc : ∀ i, 0 ≤ c i ∧ c i ≤ 255) :\n"
+         "    M0 (scMulAdd_load a b c) ∧ scMulAdd_load_safe a b c ∧ val (scMulAdd_load a b c) = leFn a 32 * leFn b 32 + leFn c 32 := by",
+         "  obtain ⟨ba, sa, fa⟩ := limbs12_spec a ha",
+         "  obtain ⟨bb, sb, fb⟩ := limbs12_spec b hb",
+         "  obtain ⟨bc, sc, fc⟩ := limbs12_spec c hc",
+         "  simp only [M0, scMulAdd_load, scMulAdd_load_safe, val]",
+         "  rw [← sa, ← sb, ← sc]",
+         "  clear sa sb sc",
+         "  simp only [fa, fb, fc, true_and]",
+         "  clear fa fb fc"]
+    for x, E in (("a", Ea), ("b", Eb), ("c", Ec)):
+        for i in range(12):
+            h.append(f"  generalize {E[i]} = {x}{i} at *")
+    h.append("  simp only [Go.inI64]")
+    for i in range(12):
+        for j in range(12):
+            h.append(f"  have p{i}_{j} := mul_bnd a{i} b{j} {LIMB_HI[i]} {LIMB_HI[j]} (by omega) (by omega) (by omega) (by omega)")
+    h.append("  simp only [Int.reduceMul] at " + " ".join(f"p{i}_{j}" for i in range(12) for j in range(12)))
+    h.append("  and_intros <;> first | trivial | omega | grind\n")
+    c.append("\n".join(h))
+    mods["ScMulAddC"] = "\n".join(c) + "\n" + END
+    d = ["import PatVerif.Proofs.ScMulAddA\nimport PatVerif.Proofs.ScMulAddB\nimport PatVerif.Proofs.ScMulAddC\n" + HDR,
+         store_lemma("scMulAdd", "s"),
+         chain_theorem("scMulAdd", n, None, ["a", "b", "c"], "leFn a 32 * leFn b 32 + leFn c 32", (n - 1, n))]
+    mods["ScMulAdd"] = "\n".join(d) + "\n" + END
+    return mods
+
+
+if __name__ == "__main__" and len(sys.argv) > 2 and sys.argv[2] == "full":
+    if sys.argv[1] == "scMulAdd":
+        for name, text in gen_muladd().items():
+            open(f"/verif/lean/PatVerif/Proofs/{name}.lean", "w").write(text)
